@@ -4,6 +4,8 @@ package main
 
 import (
 	"bytes"
+	"fmt"
+	"strings"
 	"math/rand"
 
 	"github.com/256dpi/gomqtt/packet"
@@ -470,9 +472,89 @@ func (r *runner) streams(n int) {
 	}
 }
 
+// headerWidths: the stream decoder and the per-type decoder agree on packets at every remaining-length width
+// boundary, including the 3- to 4-byte one (2 MiB), which is beyond the size of the generated inputs.  The packets
+// are built by hand (fixed header byte, varint written here, topic, zero payload): a PUBLISH whose remaining
+// length is rl must be detected with total length 1+width(rl)+rl, decoded by Publish.Decode consuming all of
+// it, and read by packet.Decoder as the same packet, followed intact by the PINGREQ that comes after it.
+func (r *runner) headerWidths() {
+	c := r.c
+	rls := []int{2, 127, 128, 16383, 16384, 2097151, 2097152, 2097153}
+	if c.Thorough() {
+		rls = append(rls, 3<<20, 8<<20)
+	}
+	for _, rl := range rls {
+		var hdr []byte
+		hdr = append(hdr, 0x30)
+		for v := rl; ; {
+			b := byte(v & 0x7f)
+			v >>= 7
+			if v > 0 {
+				hdr = append(hdr, b|0x80)
+			} else {
+				hdr = append(hdr, b)
+				break
+			}
+		}
+		body := make([]byte, rl)
+		body[0], body[1] = 0, 0 // topic length, patched below
+		tl := 1
+		if rl < 3 {
+			tl = 0
+		}
+		body[1] = byte(tl)
+		if tl == 1 {
+			body[2] = 't'
+		}
+		buf := append(append([]byte{}, hdr...), body...)
+		total := len(buf)
+		bad := ""
+		func() {
+			defer func() {
+				if x := recover(); x != nil {
+					bad = fmt.Sprintf("panic_%v", x)
+				}
+			}()
+			if l, t := packet.DetectPacket(buf[:len(hdr)]); l != total || t != packet.PUBLISH {
+				bad = fmt.Sprintf("detect=%d,%d_want=%d,3", l, t, total)
+				return
+			}
+			direct := packet.NewPublish()
+			n, err := direct.Decode(buf)
+			wantOK := tl == 1 // an empty topic is refused
+			if (err == nil) != wantOK || (err == nil && n != total) {
+				bad = fmt.Sprintf("decode_n=%d_err=%v", n, err)
+				return
+			}
+			dec := packet.NewDecoder(bytes.NewReader(append(append([]byte{}, buf...), 0xC0, 0x00)))
+			p, err := dec.Read()
+			if (err == nil) != wantOK {
+				bad = fmt.Sprintf("stream_read_err=%v_while_direct_decode_ok=%v", err, wantOK)
+				return
+			}
+			if err == nil {
+				pp, ok := p.(*packet.Publish)
+				if !ok || pp.Message.Topic != direct.Message.Topic || len(pp.Message.Payload) != len(direct.Message.Payload) || pp.Message.QOS != direct.Message.QOS {
+					bad = "stream_and_direct_decode_differ"
+					return
+				}
+				q, err := dec.Read()
+				if err != nil || q.Type() != packet.PINGREQ {
+					bad = fmt.Sprintf("packet_after_it_lost_err=%v", err)
+				}
+			}
+		}()
+		c.Stat("header_width_checks", 1)
+		if bad != "" {
+			c.Emit("direct spec_equiv FAIL case=width%d remaining_length=%d header=%s %s", rl, rl, hx.Hx(hdr), strings.ReplaceAll(bad, " ", "_"))
+		}
+	}
+}
+
 func generate(r *runner) {
 	c := r.c
 	rng := c.Rng
+	r.headerWidths()
 	for _, b := range corpus() {
 		r.run("corpus", b, true)
 	}
